@@ -194,7 +194,7 @@ class Flow:
                 falls |= self.run(e["then"])
                 self.env = saved
             if c is not True:
-                falls |= self.run(e["els"]) if "els" in e else True
+                falls |= self.run(e["else"]) if "else" in e else True
             return falls
         if k == "block":
             return self.run(e)
